@@ -24,6 +24,7 @@ NOT_DECIDED = [
     "server-side parse_query_params (HashMap + form_urlencoded; a one-pair harness over form_urlencoded::parse did not finish in 10 min) and path_param decoding beyond one character",
     "values longer than one character through the real BytesMut path (per-character concatenation is percent-encoding's contract)",
     "ToPlain wrappers push_path_parameter / push_query_parameter and the set query helper",
+    "absent optionals / empty lists through the compiled code: the frame condition (nothing written, in_path unchanged) is proved in Verus on the current text of push_optional_query_parameter / push_list_query_parameter only; a Kani harness for None and an empty slice did not finish in 300 s, so after a restructuring that Verus's templates cannot follow the result is undecided (seed C07-s6-empty-list-flips-in-path)",
 ]
 
 def VO(name, vfn, fn, desc, twin=None, known=None):
